@@ -66,4 +66,3 @@ func Lower(pages []frag.Page) ([]byte, error) {
 	}
 	return pdfw.Write([]pdfw.Doc{doc}, pdfw.Layout{}).Bytes, nil
 }
-
